@@ -1,4 +1,4 @@
-import AioslskVerif.Proofs.Expect
+import AioslskVerif.Proofs.ExpectLife
 /-!
 # C12 — a reply completes exactly the requests it answers; a timeout is a timeout
 
@@ -234,6 +234,96 @@ theorem C12_aborted_send_ends_request (ops : List Op) (k : Nat) (w : Waiter) (c 
     · simp
     · exact hp
 
+/-! ### What ends a request (round 5)
+
+"Completes **iff**": a pending request leaves the pending state only by one of its own events (`OwnEvent`): the completion
+loop of a message that matches it, its timeout, a cancellation of the request or of its caller, the failure of its own
+`send`.  Nothing else that happens meanwhile ends it — in particular not the life of the connections: the one the request
+went out on, the last one of that peer, the server's (`connState c true` = CLOSING / CLOSED reported by
+`Connection.set_state`, `connState c false` = a connection object that is (again) open: a new connection of the peer
+accepted / connected to and ESTABLISHED).  Requests are matched by peer *name*: the reply may arrive over a connection
+that did not exist when the request was made. -/
+
+/-- `Connection.set_state` reports reach `Network.on_state_changed` (network.py:1060-1126): no request, no scheduled
+callback, no running call of `on_message_received` is touched. -/
+theorem C12_connection_events_touch_no_request (s : State) (c : Nat) (b : Bool) :
+    (step s (.connState c b)).ws = s.ws ∧ (step s (.connState c b)).cbq = s.cbq ∧
+    (step s (.connState c b)).hs = s.hs ∧ (step s (.connState c b)).err = s.err := by
+  simp [step]
+
+/-- A request that was pending and is not any more: in between lies (a first) one of its own events, and it was still
+pending right before it. -/
+theorem C12_request_ends_only_by_own_event (ops ops' : List Op) (k : Nat) (w w' : Waiter)
+    (hk : (run ops).ws[k]? = some w) (hp : w.fut = .pending)
+    (hk' : (run (ops ++ ops')).ws[k]? = some w') (hnp : w'.fut ≠ .pending) :
+    ∃ a op b w1, ops' = a ++ op :: b ∧ (run (ops ++ a)).ws[k]? = some w1 ∧ w1.fut = .pending ∧
+      OwnEvent (run (ops ++ a)) k w1 op := by
+  have hk2 : (ops'.foldl step (run ops)).ws[k]? = some w' := by simpa [run, List.foldl_append] using hk'
+  obtain ⟨a, op, b, w1, he, hk1, hp1, ho⟩ := ends_by_own_event_foldl ops' (run ops) k w w' (inv_run ops) hk hp hk2 hnp
+  refine ⟨a, op, b, w1, he, ?_, hp1, ?_⟩
+  · simpa [run, List.foldl_append] using hk1
+  · simpa [run, List.foldl_append] using ho
+
+/-- Whatever happens that is not one of its own events — any number of connections closed, lost, opened; other
+requests made, answered, timed out, cancelled; other messages handled; callbacks run — the request is exactly as pending
+as before: still pending, same matcher, still awaited, its timeout still armed, its caller not cancelled. -/
+theorem C12_pending_survives_foreign_events (ops ops' : List Op) (k : Nat) (w : Waiter)
+    (hk : (run ops).ws[k]? = some w) (hp : w.fut = .pending) (hf : NoOwnEvent k (run ops) ops') :
+    ∃ w', (run (ops ++ ops')).ws[k]? = some w' ∧ w'.fut = .pending ∧ w'.m = w.m ∧
+      (w.awaiting = true → w'.awaiting = true) ∧ w'.expired = w.expired ∧ w'.cancelReq = w.cancelReq := by
+  obtain ⟨w', hk', h⟩ := kept_foldl ops' (run ops) k w (inv_run ops) hk hp hf
+  exact ⟨w', by simpa [run, List.foldl_append] using hk', h⟩
+
+/-- Connection events are nobody's own events: any list of them, from any state. -/
+theorem C12_connection_events_are_foreign (k : Nat) (cs : List (Nat × Bool)) (s : State) :
+    NoOwnEvent k s (cs.map fun x => Op.connState x.1 x.2) :=
+  connEvents_foreign k cs s
+
+/-- The reply arrives over a connection `c` that may not have existed when the request was made (after anything
+foreign to the request: e.g. every connection of the peer closed, a new one opened): once its handlers have returned
+the request is completed with it. -/
+theorem C12_reply_over_new_connection (ops ops' : List Op) (k : Nat) (w : Waiter)
+    (hk : (run ops).ws[k]? = some w) (hp : w.fut = .pending) (hf : NoOwnEvent k (run ops) ops')
+    (c : Nat) (μ : Msg) (hm : w.m.matches μ = true) :
+    ∃ w', (run (ops ++ ops' ++ [.arrive c μ, .finish (run (ops ++ ops')).nmsg])).ws[k]? = some w' ∧
+      w'.fut = .result (run (ops ++ ops')).nmsg := by
+  obtain ⟨w1, hk1, hp1, hm1, _⟩ := C12_pending_survives_foreign_events ops ops' k w hk hp hf
+  have harr : run (ops ++ ops' ++ [.arrive c μ]) = step (run (ops ++ ops')) (.arrive c μ) := by
+    simp [run, List.foldl_append]
+  obtain ⟨hws, _, hhs⟩ := C12_handlers_first (run (ops ++ ops')) c μ
+  obtain ⟨w2, hk2, h2, _⟩ := C12_all_pending_matching_resolved (ops ++ ops' ++ [.arrive c μ]) (run (ops ++ ops')).nmsg
+    { μ := μ, c := c, done := false } (by rw [harr]; exact hhs) rfl k w1 (by rw [harr, hws]; exact hk1)
+  refine ⟨w2, ?_, h2 hp1 (by rw [hm1]; exact hm)⟩
+  have : ops ++ ops' ++ [Op.arrive c μ, .finish (run (ops ++ ops')).nmsg] =
+      ops ++ ops' ++ [.arrive c μ] ++ [.finish (run (ops ++ ops')).nmsg] := by simp
+  rw [this]; exact hk2
+
+/-- … and when no reply arrives: the caller's timeout fires (whatever foreign happened before — the disconnect of the
+peer's last connection included) and, once the scheduled callbacks have run, the caller has got `TimeoutError` — not
+`CancelledError`, and not before. -/
+theorem C12_unanswered_request_times_out (ops ops' : List Op) (k : Nat) (w : Waiter)
+    (hk : (run ops).ws[k]? = some w) (hp : w.fut = .pending) (ha : w.awaiting = true) (he : w.expired = false)
+    (hc : w.cancelReq = false) (hf : NoOwnEvent k (run ops) ops') :
+    (∃ w1, (run (ops ++ ops')).ws[k]? = some w1 ∧ w1.out = .none ∧ w1.fut = .pending) ∧
+    ∃ w', (run (ops ++ ops' ++ [.timeout k] ++
+        List.replicate (run (ops ++ ops' ++ [.timeout k])).cbq.length Op.cb)).ws[k]? = some w' ∧ w'.out = .timeout := by
+  obtain ⟨w1, hk1, hp1, _, ha1, he1, hc1⟩ := C12_pending_survives_foreign_events ops ops' k w hk hp hf
+  have hnone : w1.out = .none := by
+    apply Classical.byContradiction
+    intro hn
+    exact C12_caller_gone_not_pending (ops ++ ops') k w1 hk1 hn hp1
+  refine ⟨⟨w1, hk1, hnone, hp1⟩, ?_⟩
+  obtain ⟨w2, hk2, he2, hc2, _⟩ := C12_timeout_fires (ops ++ ops') k w1 hk1 (ha1 ha) (by rw [he1]; exact he)
+  have hk2' : (run (ops ++ ops' ++ [.timeout k])).ws[k]? = some w2 := by simpa using hk2
+  obtain ⟨w3, hk3, he3, hc3⟩ := cb_flags_foldl (run (ops ++ ops' ++ [.timeout k])).cbq.length
+    (run (ops ++ ops' ++ [.timeout k])) k w2 hk2'
+  have hk3' : (run (ops ++ ops' ++ [.timeout k] ++
+      List.replicate (run (ops ++ ops' ++ [.timeout k])).cbq.length Op.cb)).ws[k]? = some w3 := by
+    simpa [run, List.foldl_append] using hk3
+  refine ⟨w3, hk3', ?_⟩
+  have hq := (C12_no_residue (ops ++ ops' ++ [.timeout k])).1
+  exact (C12_timeout_is_timeout _ k w3 hk3' (by rw [he3]; exact he2) (by rw [hc3, hc2, hc1]; exact hc)).2 hq
+
 /-! Non-vacuity: concrete reachable states (matcher with a predicate field followed by a constant). -/
 
 def exMatcher : Matcher := { cls := .server, msg := 1, peer := none, fields := [(4, .pred fun _ => true), (5, .const (.v 7))] }
@@ -272,5 +362,18 @@ example : ((run [.create .raw exMatcher, .awaitF 0, .arrive 0 exGood, .create .w
 -- handler is not
 example : ((run [.create .raw exMatcher, .awaitF 0, .arrive 0 exGood, .cancelFut 0, .create .raw exMatcher,
     .finish 0]).ws.map (·.fut)) = [.cancelled, .result 0] := by decide
+
+-- every connection of the peer is closed (2, 4), a new one (6) comes about, the reply arrives over it: completed
+example : ((run [.create .wait exPeer, .awaitF 0, .connState 4 true, .connState 2 true, .connState 6 false,
+    .arrive 6 exPeerReply, .finish 0, .cb, .cb]).ws.map fun w => (w.fut, w.listed, w.out)) =
+    [(.result 0, false, .result 0)] := by decide
+-- … nothing arrives: still pending after the disconnects, TimeoutError when (and only when) the timeout fires
+example : ((run [.create .exec exPeer, .awaitF 0, .connState 2 true, .connState 4 true]).ws.map
+    fun w => (w.fut, w.listed, w.out)) = [(.pending, true, .none)] := by decide
+example : ((run [.create .exec exPeer, .awaitF 0, .connState 2 true, .connState 4 true, .timeout 0, .cb, .cb]).ws.map
+    fun w => (w.fut, w.listed, w.out)) = [(.cancelled, false, .timeout)] := by decide
+-- the hypotheses of `C12_unanswered_request_times_out` / `C12_reply_over_new_connection` are satisfiable
+example : NoOwnEvent 0 (run [.create .exec exPeer, .awaitF 0]) [.connState 2 true, .connState 4 true, .connState 6 false] :=
+  C12_connection_events_are_foreign 0 [(2, true), (4, true), (6, false)] _
 
 end AioslskVerif.C12
